@@ -156,6 +156,15 @@ Open Scope Q_scope.
 def evaluate(d, route, seed, npoints=2, numeric=True, lambda_backend=True):
     """build with pygom through `route`, evaluate; returns list of (point, order, pv) and first finding"""
     rng = np.random.default_rng(seed)
+    if d.get("_twin_first"):
+        # another model with the same names and the same equation strings, but another definition of a derived parameter, is
+        # built and evaluated first in the same process (nothing of it may survive into this one)
+        tw, _ = mg.build(dict(d, derived=d["_twin_first"]), route=route, rng=np.random.default_rng(seed), lambda_backend=lambda_backend)
+        ptw = mg.random_point(np.random.default_rng(seed + 1), d)
+        tw.get_ode_eqn()
+        tw.parameters = {p: float(ptw[p]) for p in d["params"]}
+        xx = np.array([float(ptw[s0]) for s0 in d["states"]])
+        tw.ode(xx, float(ptw["t"])); tw.eventRateVector(xx, float(ptw["t"]))
     # every other case: the definition objects first go into a model that is thrown away (a definition can be reused)
     m, order = mg.build(d, route=route, rng=rng, lambda_backend=lambda_backend, reuse=bool(seed % 2 == 0))
     res, finding = [], None
@@ -223,6 +232,10 @@ CORPUS = [
           events=[dict(rate="fbeta*S*I/(S+I+R)", kind="periodic", trans=[dict(ty="T", o=0, d=1, mag="1")]),
                   dict(rate="gamma*I", kind="linear", trans=[dict(ty="T", o=1, d=2, mag="1"), dict(ty="D", o=0, d=None, mag="mu")]),
                   dict(rate="mu*exp(-gamma*S/7)", kind="exponential", trans=[dict(ty="B", o=None, d=0, mag="2")])]), "event"),
+    (dict(states=["S", "I", "R"], params=["beta", "gamma", "mu"], derived=[["fbeta", "beta*(2+sin(t))/3"], ["Ntot", "S+I+R"]], decl="list",
+          _twin_first=[["fbeta", "beta*(1+cos(t)/3)"], ["Ntot", "S+I+2*R"]], odes=[dict(state=2, eqn="-mu*R/Ntot")],
+          events=[dict(rate="fbeta*S*I/Ntot", kind="periodic", trans=[dict(ty="T", o=0, d=1, mag="1")]),
+                  dict(rate="gamma*I", kind="linear", trans=[dict(ty="T", o=1, d=2, mag="1")])]), "event"),
 ]
 
 
